@@ -337,7 +337,7 @@ fn c11_check(ext: &Externs, dir: &std::path::Path, tag: &str, case: &C11Case) ->
         let pool: Vec<usize> = (0..vtypes::MENU.len()).filter(|&i| case.kind != PerturbKind::UninitNonCopy || !vtypes::MENU[i].copy).collect();
         pool[pick(sel, pool.len())]
     });
-    let mk = |apply: bool| Ext { perturb: Some((ordinal, case.kind, case.entry)), apply_perturbation: apply, markers: BTreeMap::new(), twin: case.twin, force_type };
+    let mk = |apply: bool| Ext { perturb: Some((ordinal, case.kind, case.entry)), apply_perturbation: apply, markers: BTreeMap::new(), twin: case.twin, force_type, alias_paths: false };
     let fragsel = case.history.fragsel;
     let (control, control_text) = match module_text(&case.history, &mk(false), fragsel) {
         Some(x) => x,
@@ -492,7 +492,7 @@ fn c14_ext(case: &C14Case) -> Option<Ext> {
             markers.insert(pick(*sel, plain.additions), *m as usize);
         }
     }
-    Some(Ext { perturb: None, apply_perturbation: false, markers, twin: false, force_type: None })
+    Some(Ext { perturb: None, apply_perturbation: false, markers, twin: false, force_type: None, alias_paths: false })
 }
 
 const PROBE_PRELUDE: &str = r#"#![allow(dead_code, unused_imports, unused_variables, unused_mut, non_camel_case_types)]
